@@ -20,11 +20,11 @@ def run(rep, tier):
     rep.trust("ParseTreeWalker order: enterForloop, then enter/exit of every child statement, then exitForloop")
     ix = common.index(rep)
     G = gm.Grammar(gm.read(gm.FILES["g4"], rep))
-    c06_1(rep, ix, G)
-    c06_2(rep, ix)
-    c06_3(rep, ix, G)
-    c11_5(rep, ix, R="C06.4")
-    c06_5(rep, ix, G)
+    common.guarded(rep, "C06.1", c06_1, rep, ix, G)
+    common.guarded(rep, "C06.2", c06_2, rep, ix)
+    common.guarded(rep, "C06.3", c06_3, rep, ix, G)
+    common.guarded(rep, "C06.4", c11_5, rep, ix, R="C06.4")
+    common.guarded(rep, "C06.5", c06_5, rep, ix, G)
 
 
 def const_bool(e):
